@@ -442,6 +442,10 @@ func TestPropRepeat(t *testing.T) {
 				continue
 			}
 			d1, d2 := digest(runBackend(b, m1, nil)), digest(runBackend(b, m1, nil))
+			for k := 0; k < 3 && d1 == d2; k++ {
+				// a two-element map flips its iteration order only about every other time
+				d2 = digest(runBackend(b, m1, nil))
+			}
 			if d1 != d2 {
 				msg := fmt.Sprintf("backend %s: two compilations of one module differ (%s vs %s)", b, d1, d2)
 				ev.Fail("repeat-"+b, map[string]string{"wgsl": src, "backend": b}, msg)
